@@ -5,21 +5,52 @@ hooks_commits = subprocess.run(['git','-C','/repo','log','--format=%H %s'],captu
 hook_shas = [l.split()[0] for l in hooks_commits if 'verif hooks' in l]
 ENV = "GOFLAGS=-mod=mod GOPROXY=off"
 checks = {
- 'C01': ("reference-model monitor: exact winding oracle beside every execution, 16 (op,rule) per input", "§8 C01"),
- 'C02': ("structural + exact-winding monitor of every returned solution; option setter hook", "§8 C02"),
+ 'C01': ("reference-model monitor: exact winding oracle beside every execution, 16 (op,rule) per input; discard/join event hooks", "§8 C01"),
+ 'C02': ("structural + exact-winding monitor of every returned solution; option-setter hook", "§8 C02"),
+ 'C03': ("recover()/step-budget/process-supervisor monitor over hostile inputs and all enum values; exported-API coverage asserted from go/parser", "§8 C03"),
+ 'C04': ("tree-vs-flat differential + exact containment oracle over every pair of tree polygons", "§8 C04"),
+ 'C05': ("reference-model monitor: exact point-in-region + distance-band oracle for offsets of validated simple polygon sets", "§8 C05"),
+ 'C06': ("reference-model monitor: exact winding inside/outside the rectangle, fast-path and reuse checks", "§8 C06"),
+ 'C07': ("differential monitor: D entry points vs 64-bit functions on exactly re-quantised input (big.Float quantisation oracle)", "§8 C07"),
+ 'C08': ("reference-model monitor: exact segment-intersection oracle for the swept region with stability margins", "§8 C08"),
+ 'C09': ("reference-model monitor: coverage of sampled subject-line points vs exact winding about the closed inputs", "§8 C09"),
+ 'C10': ("reference-model monitor: stroke band oracle per sub-check; cap_skipped hook events attribute the known end-cap finding", "§8 C10"),
+ 'C11': ("reference-model monitor: interval coverage, monotone-order matching and bounds of clipped lines", "§8 C11"),
+ 'C12': ("sequential history checker against an executable model (fresh-object replay) + scratch-state invariant hook + input-immutability monitor", "§8 C12"),
+ 'C13': ("metamorphic monitor (translate / scale) cross-checked by the exact 128-bit oracle at the transformed magnitude", "§8 C13"),
  'C14': ("reference-model monitor: math/big beside predicate aliases; exhaustive micro-grid + random hard operands", "§8 C14"),
+ 'C15': ("reference-model monitor: exact subsequence/area/winding/collinearity checks; as-built algorithm model only for attribution", "§8 C15"),
+ 'C16': ("reference-model monitor: exact perpendicular distances, epsilon-0 area, translation/scale invariance of the retained set", "§8 C16"),
+ 'C17': ("metamorphic monitor over 15 spellings per input + in-process and cross-process byte determinism", "§8 C17"),
+ 'C18': ("Go race detector over 16/64-goroutine workloads on shared inputs + result monitor against a sequential run; yield hook", "§8 C18"),
  'C19': ("metamorphic monitor over the library's own five results per input: exact areas + pointwise identities", "§8 C19"),
 }
+GEN = "Exploration: the property held on the executions observed in this run (counts in the evidence file); nothing is proved and behaviour on inputs not generated is unknown. "
 TEXT = {
- 'C01': "Exploration: held on the executions observed (tens of thousands of inputs x 16 operations per quick run, >10^8 sample points), nothing is proved. Right level because the property quantifies over all inputs and its meaning (a region) is computable exactly per point, so an oracle beside real executions is the strongest evidence this technique family offers.",
- 'C02': "Exploration over the same workloads as C01 with the reverse/preserve-collinear options reached through a hook; structural conditions are checked on every returned path, the winding condition at sampled points.",
- 'C14': "Exploration, exhaustive only for the micro-domain [-2,2]^2 point triples; random hard operands elsewhere. Exact reference arithmetic makes every evaluation a decided comparison.",
- 'C19': "Exploration: identities between the library's own results are checked with exact areas and at sampled points on small and large (thousands of vertices) inputs.",
+ 'C01': GEN+"Right level because the property quantifies over all inputs and its meaning (a region) is computable exactly per point, so an exact oracle beside real executions is the strongest evidence this technique family offers; quick covers ~60k inputs x 16 operations, thorough ~1M.",
+ 'C02': GEN+"Structural conditions are checked on every returned path, the winding condition at sampled points > 2 units from solution edges, with the reverse/preserve-collinear options reached through a hook.",
+ 'C03': GEN+"Every exported callable is invoked (asserted against the parsed source) on degenerate shapes and every enum value incl. out-of-range ones; hangs are decided by a logical step budget, fatal crashes and unbounded allocation by the process supervisor.",
+ 'C04': GEN+"All pairs of tree polygons are tested for containment where that is decidable outside the rounding band; the tree is compared with the flat result polygon by polygon.",
+ 'C05': GEN+"Inputs are validated as simple; membership is exact, distances carry a conservative margin; all 4 joins, both signs, miter limits, arc tolerances, multi-group objects.",
+ 'C06': GEN+"Exact winding comparison inside and outside the rectangle for random, snapped, enclosing and disjoint rectangles; self-intersecting families are a closed pool because the clipper has listed findings there.",
+ 'C07': GEN+"Differential: every D entry point against its 64-bit counterpart on the library's own quantisation, which is itself checked against big.Float rounding; all 17 precisions plus out-of-range ones.",
+ 'C08': GEN+"The oracle decides 'pattern boundary meets path' exactly and only at points where the answer is provably stable over the 2-unit neighbourhood.",
+ 'C09': GEN+"Sampled points of the subject lines away from closed edges are classified by exact winding and compared with coverage by the open solution for all 4 clip types.",
+ 'C10': GEN+"Sub-checks (canonical result, reach bound, interior coverage, end segments and caps, joined loops, single points) are separate so that the known end-cap finding does not blind the others.",
+ 'C11': GEN+"Vertices, order and coverage are checked for random, snapped and two-point lines through all four entry points.",
+ 'C12': GEN+"Random sequential histories on one object are compared step by step with a fresh-object replay of the model state; scratch state is asserted empty through a hook at every quiescent point; ~20 library calls are bracketed by deep copies of their inputs.",
+ 'C13': GEN+"Translations up to 2^52 and scalings up to 2^61 of inputs whose untransformed result is right; failures beyond the int64-product overflow threshold (differences > 2^31) are a listed finding recognised by magnitude.",
+ 'C14': GEN+"Exhaustive only for the micro-domain [-2,2]^2 point triples; random hard operands elsewhere. Exact reference arithmetic makes every evaluation a decided comparison.",
+ 'C15': GEN+"Millions of tiny and planted-collinear paths; every failure is either unattributed (violation) or equals an as-built model run with the documented faulty sign / the upstream algorithm (listed findings).",
+ 'C16': GEN+"Zig-zags, near-collinear chains, wrap-around and random paths at magnitudes to 2^29, with exact distances and invariance checks; float variant in float arithmetic.",
+ 'C17': GEN+"15 spellings per input compared pointwise with the base solution; equal inputs must give equal bytes in-process and in two different worker processes.",
+ 'C18': GEN+"The race detector sees only interleavings that occur: 8 (quick) / 80 (thorough) repetitions x 16 or 64 goroutines x 68 calls, with a yield hook in half of them; results are compared with a sequential run.",
+ 'C19': GEN+"Identities between the library's own results are checked with exact areas and at sampled points on small and large (thousands of vertices) inputs.",
 }
 NOTE = "Trusted: the harness oracles (128-bit/ math/big integer arithmetic, float distance with conservative margin), the Go toolchain, and that `-tags verif` hooks only observe. Residual genuine defects met in the closed pool are listed in KNOWN_FINDINGS.json by input or call-site class."
 m = {
  "version": 1,
- "setup_cmd": "cd /verif/harness && cp /repo/go.sum go.sum && GOFLAGS=-mod=mod GOPROXY=off go build -tags verif -o /verif/bin/vcheck ./cmd/vcheck",
+ "setup_cmd": "cd /verif/harness && cp /repo/go.sum go.sum && GOFLAGS=-mod=mod GOPROXY=off go build -tags verif -o /verif/bin/vcheck ./cmd/vcheck && GOFLAGS=-mod=mod GOPROXY=off go build -race -tags verif -o /verif/bin/vcheck-race ./cmd/vcheck",
  "hooks": {
   "guard": "verif (Go build tag)",
   "enable": "go build -tags verif (the harness module replaces github.com/bolom009/go-clipper2 => /repo and is rebuilt by every check)",
@@ -48,6 +79,6 @@ for pid in allp:
          "technique": "runtime monitoring: " + tech,
         })
     else:
-        m['not_applicable'].append({"property_id": pid, "reason": "monitor not built yet in this commit (work in progress; the design claims it, see DESIGN.md §8)"})
+        m['not_applicable'].append({"property_id": pid, "reason": "no check registered"})
 json.dump(m, open('/verif/MANIFEST.json','w'), indent=1)
 print("checks:", len(m['checks']), "n/a:", len(m['not_applicable']))
